@@ -51,6 +51,29 @@ Proof.
   - intros d a Hl. unfold coins_of in Hl. apply elem_of_list_to_map_2 in Hl. exact (coins_sorted_pos _ Hs _ _ Hl).
 Qed.
 
+(* a Coins parameter that passed its validator *)
+Lemma coins_param_ok_ok l : coins_param_ok l = true -> coins_ok (coins_of l) = true.
+Proof.
+  unfold coins_param_ok. intros H. apply orb_true_iff in H as [H|H].
+  - apply bool_decide_eq_true in H. subst l. reflexivity.
+  - apply coins_ok_pos. intros d a Hl. unfold coins_of in Hl. apply elem_of_list_to_map_2 in Hl. exact (coins_sorted_pos _ H _ _ Hl).
+Qed.
+
+(* the per-key validators of a governance change are exactly what Params.Validate of the modules checks *)
+Lemma pchange_valid_params s c : pchange_valid c = true -> params_valid (pars s) -> params_valid (pars (apply_pchange s c)).
+Proof.
+  unfold params_valid, prov_params_ok, node_params_ok, sub_params_ok, sess_params_ok, swap_params_ok, deposit_coin_ok.
+  intros Hv (A & B & C & D & E). repeat rewrite andb_true_iff in *.
+  destruct c; simpl in *; unfold coin_param_ok, pos_i64, Step.share_ok, denom_ok in Hv; repeat rewrite andb_true_iff in Hv;
+    try (apply coins_param_ok_ok in Hv); unfold Genesis.share_ok in *; repeat rewrite andb_true_iff in *;
+    intuition (try assumption; try (apply Z.ltb_lt; apply Z.ltb_lt in H; lia)).
+Qed.
+Lemma gov_params_valid cs : forall s, forallb pchange_valid cs = true -> params_valid (pars s) -> params_valid (pars (fold_left apply_pchange cs s)).
+Proof.
+  induction cs as [|c cs IH]; intros s Hv Hp; simpl in *; [exact Hp|]. apply andb_true_iff in Hv as [H1 H2].
+  apply IH; [exact H2|]. apply pchange_valid_params; assumption.
+Qed.
+
 (* the end-of-block price sweep keeps a price vector valid *)
 Lemma clamp_fold_pos (cmp : Z -> Z -> bool) (l : list coin) : forall p,
   (forall d a, (d, a) ∈ l -> 0 < a /\ d <> 0%N) -> p <> ∅ /\ coins_pos p ->
@@ -86,11 +109,11 @@ Record rec_inv (s : state) : Prop := {
   rv_infl : infl_records_ok s;
   rv_pars : params_valid (pars s) }.
 
-(* operations of the domain: time moves forward, governance leaves every parameter set valid *)
+(* operations of the domain: time moves forward.  (Governance needs no premise: a proposal is executed only if
+   every change passes its per-key validator, and those are exactly what the modules' Params.Validate check.) *)
 Definition wf_op_rec (s : state) (o : op) : Prop :=
   match o with
   | OBegin t => now s < t
-  | OGov cs => params_valid (pars (fold_left apply_pchange cs s))
   | _ => True
   end.
 
@@ -570,7 +593,7 @@ Proof.
   - unfold run_tx in Hstep. destruct (validate_basic m) eqn:Hv; [|discriminate].
     destruct (handle _ m) as [x| |] eqn:H; try discriminate. injection Hstep as <-.
     eapply rec_handle; [apply kinv_clear; exact Hi| |exact Hv|exact H]. split; assumption.
-  - injection Hstep as <-. simpl in Hwf.
+  - destruct (forallb pchange_valid cs) eqn:Hgate; [|discriminate]. injection Hstep as <-. simpl in Hwf.
     assert (F : forall cs0 y, now (fold_left apply_pchange cs0 y) = now y /\ deposits (fold_left apply_pchange cs0 y) = deposits y /\
               prov_act (fold_left apply_pchange cs0 y) = prov_act y /\ prov_inact (fold_left apply_pchange cs0 y) = prov_inact y /\
               node_act (fold_left apply_pchange cs0 y) = node_act y /\ node_inact (fold_left apply_pchange cs0 y) = node_inact y /\
@@ -583,7 +606,7 @@ Proof.
     split; [rewrite F1; exact T|eapply dep_ok_frame; [exact F2|exact D]|eapply prov_ok_frame; [exact F3|exact F4|exact P]
            |eapply node_ok_frame; [exact F5|exact F6|exact N]|eapply plan_ok_frame; [exact F7|exact F8|exact L]
            |eapply sess_ok_frame; [exact F9|exact S]|eapply swap_ok_frame; [exact F10|exact W]|eapply infl_ok_frame; [exact F11|exact I]|].
-    rewrite pars_fold_clear. exact Hwf.
+    rewrite pars_fold_clear. apply gov_params_valid; assumption.
   - destruct (end_block _) as [x| |] eqn:H; try discriminate. injection Hstep as <-.
     unfold end_block in H. apply rbind_ok in H as (s1 & H1 & H). apply rbind_ok in H as (s2 & H2 & H3).
     assert (R0 : rec_inv (clear_events s)) by (split; assumption).
